@@ -68,4 +68,56 @@ theorem C01_presentation_independent (o : Opts) (d₁ d₂ : Doc) (l₁ l₂ : L
   rw [C01_parse_render o d₁ l₁ pol₁ hstore hmfd hutf hwf₁ hok₁ hfit₁ hne₁,
     C01_parse_render o d₂ l₂ pol₂ hstore hmfd hutf hwf₂ hok₂ hfit₂ hne₂, hsame]
 
+/-! ### non-vacuity: the hypotheses hold for a document with the combinations named in the property's rationale -/
+
+namespace C01render
+/-- two blocks; a loop whose packet holds a list with a folded + prefixed text field and a table with a triple-quoted key
+    followed by a list with a text field and a quoted key followed by a string that ends in a surrogate pair; a save frame with
+    a bare value that begins with `;`; `?`; a block code with brackets; a quoted string containing the other quote -/
+def doc : Doc :=
+  [{ code := a!"b", body := [
+      .plain (.loop [a!"_a", a!"_t"] [[
+        .lst [.enc (a!"abcd") (a!"> \\\\\n> ab\\\n> cd")],
+        .tbl [(a!"k", .tsquote, .lst [.str (a!"t") .text]), (a!"p", .dquote, .str [120, 0xD83D, 0xDE00] .squote)]]]),
+      .frame (a!"f") [.item (a!"_x") (.str (a!";semi") .bare)],
+      .plain (.item (a!"_q") .unk)] },
+   { code := a!"c[1]", body := [.plain (.item (a!"_y") (.str (a!"it's") .dquote))] }]
+
+/-- a layout with comments, empty lines, an empty optional separator in front of the closing brackets, and — in front of the
+    bare value `;semi` — a separator that ends with a blank -/
+def layout : Layout := fun k =>
+  if k = 15 then [.eol, .blank 32] else if k = 0 then [.comment (a!"\\#CIF_2.0"), .eol]
+  else if k = 6 ∨ k = 10 then [] else if k % 5 = 2 then [.blank 32, .comment (a!"c"), .eol] else [.eol]
+end C01render
+
+set_option maxRecDepth 100000 in
+theorem C01_render_instance_hyps :
+    C01_wfDoc C01parse.opts2 C01render.doc = true ∧ C01_feedOk .cif2 C01render.doc C01render.layout = true
+    ∧ linesFit 0 (render C01render.doc C01render.layout) = true ∧ render C01render.doc C01render.layout ≠ [] := by
+  refine ⟨by decide +kernel, by decide +kernel, by decide +kernel, ?_⟩
+  intro h
+  have : (render C01render.doc C01render.layout).length = 0 := by rw [h]; rfl
+  revert this
+  decide +kernel
+
+/-- … so for EVERY callback policy the rendered text parses, without a report, to the denoted content -/
+theorem C01_render_instance (pol : Policy) :
+    parse C01parse.opts2 pol [] (render C01render.doc C01render.layout)
+      = { rc := 0, log := [], cif := denote .cif2 id C01render.doc } :=
+  C01_parse_render C01parse.opts2 C01render.doc C01render.layout pol rfl (by decide) rfl C01_render_instance_hyps.1
+    C01_render_instance_hyps.2.1 C01_render_instance_hyps.2.2.1 C01_render_instance_hyps.2.2.2
+
+-- the predicate is not trivially true: a text field directly behind a key, a comment glued to a value, a `;`-led bare value at
+-- the beginning of a line, a list in CIF 1.1 are all refused
+example : C01_feedOk .cif2 [{ code := a!"b", body := [.plain (.item (a!"_x") (.tbl [(a!"k", .squote, .str (a!"t") .text)]))] }]
+    (fun _ => [.eol]) = false := by decide +kernel
+example : C01_feedOk .cif2 [{ code := a!"b", body := [.plain (.item (a!"_x") (.str (a!"v") .bare))] }]
+    (fun k => if k = 3 then [.comment (a!"c"), .eol] else [.eol]) = false := by decide +kernel
+example : C01_feedOk .cif2 [{ code := a!"b", body := [.plain (.item (a!"_x") (.str (a!";v") .bare))] }] (fun _ => [.eol]) = false
+    ∧ C01_feedOk .cif2 [{ code := a!"b", body := [.plain (.item (a!"_x") (.str (a!";v") .bare))] }] (fun _ => [.blank 32]) = true := by
+  decide +kernel
+example : C01_feedOk .cif1 [{ code := a!"b", body := [.plain (.item (a!"_x") (.lst []))] }] (fun _ => [.eol]) = false
+    ∧ C01_feedOk .cif1 [{ code := a!"b", body := [.plain (.item (a!"_x") (.str (a!"it's") .squote))] }] (fun _ => [.eol]) = true := by
+  decide +kernel
+
 end CifModel
